@@ -385,16 +385,40 @@ theorem finish_ok {KI : KktSolver α → Prop} {d : ProblemData α} {specs : Lis
   exact ⟨hx.trans hsol.x, fun hp => hs.trans (hsol.none_s hp), fun hp => hz.trans (hsol.none_z hp),
     fun p hp => hs.trans (hsol.some_s p hp), fun p hp => hz.trans (hsol.some_z p hp)⟩
 
+/-! ### the norm caches: the invariant does not look at them -/
+
+theorem Shapes.withNorms {KI : KktSolver α → Prop} {S : SolverSt α} (h : Shapes KI S) (a b : Option α) :
+    Shapes KI { S with data := { S.data with normq := a, normb := b } } :=
+  ⟨h.data.withNorms a b, h.vars, h.resid, h.stepLhs, h.stepRhs, h.prevVars, h.cones, h.numel, h.x1, h.z1,
+    h.x2, h.z2, h.workx, h.workz, h.workConic, h.kkt⟩
+
+/-- the stage bundle depends on the data only through `n`, `m` -/
+theorem Stages.withNorms {KIw KIs : KktSolver α → Prop} {d : ProblemData α} {specs : List Kkt.ConeSpec}
+    {st : Settings α} (G : Stages KIw KIs d specs st) (a b : Option α) :
+    Stages KIw KIs { d with normq := a, normb := b } specs st :=
+  ⟨G.cone, G.top, G.kkt⟩
+
 /-- [S] **every `solve()` returns without panicking** (relative to the stage bundle `G`): on a
 solver object satisfying the invariant, `Solver.solve` returns `.ok`, and the returned solver
-object satisfies the invariant again (so it can be solved again). -/
+object satisfies the invariant again (so it can be solved again) — anchored at ITS data, which is the
+data at entry with the two norm caches filled (`fillNorms`; the invariant does not look at the
+caches: `Shapes.withNorms`, `Stages.withNorms`). -/
 theorem solve_ok {KIw KIs : KktSolver α → Prop} {d : ProblemData α} {specs : List Kkt.ConeSpec}
     {st : Settings α} (G : Stages KIw KIs d specs st) {S : Solver α} (h : SolverInv KIw d specs S) :
-    OkAnd (S.solve st) (fun r => SolverInv KIw d specs r.S) := by
+    OkAnd (S.solve st) (fun r => (∃ nq nb, r.S.st.data = { d with normq := some nq, normb := some nb })
+      ∧ fillNorms d = .ok r.S.st.data ∧ SolverInv KIw r.S.st.data specs r.S) := by
   unfold Solver.solve
   refine (runSolve_ok G h.st).bind fun L hI => ?_
   refine (finish_ok st hI h.solution).bind fun r hr => ?_
-  exact .pure ⟨hr.1, hr.2⟩
+  obtain ⟨nq, nb, hfill⟩ := fillNorms_ok hr.1.shapes.data
+  have hd : r.1.data = d := hr.1.data
+  rw [bind_ok_of hfill]
+  refine .pure ⟨⟨nq, nb, ?_⟩, ?_, ⟨hr.1.shapes.withNorms _ _, rfl, hr.1.specs⟩, ?_⟩
+  · show ({ r.1.data with normq := some nq, normb := some nb } : ProblemData α) = _
+    rw [hd]
+  · rw [← hd]; exact hfill
+  · show SolutionSized { r.1.data with normq := some nq, normb := some nb } r.2
+    rw [hd]; exact hr.2.withNorms _ _
 
 end
 
